@@ -6,18 +6,43 @@ BASELINE = ('cd /repo && /venv/bin/python -m pytest -ra -q -p no:cacheprovider '
             '--timeout=900 --continue-on-collection-errors')
 
 # id -> (engine, design section, level text, level note, technique)
+NOTE_A = ('World A glue mirrors Loader; virtual clock; canonical key argument '
+          'in DESIGN 2.2; small-scope bounds (3-4 servers, <=5 instances, '
+          'menus in the evidence).')
+TECH_STATEX = ('explicit-state model checking of the implementation (BFS over '
+               'event histories, replay-built states, canonical dedup, '
+               'recomputed-from-leaves oracle)')
+
+
+def _s(text, ref, note=NOTE_A, tech=TECH_STATEX, engine='statex'):
+    return (engine, ref, text, note, tech)
+
+
 CHECKS = {
-    'C01': ('statex', '5/C01',
-            'Explicit-state BFS over histories of cell events (real Cell, '
-            'Server, Allocation objects) with canonical-state dedup; after '
-            'every cycle sums are recomputed from the leaves and both views '
-            'compared; unit spellings by a complete sweep plus a differential '
-            'run.  Bounded: depth/alphabet in evidence.',
-            'World A glue mirrors Loader; virtual clock; canonical key '
-            'argument in DESIGN 2.2; small-scope bounds (3-4 servers, <=4 '
-            'instances).',
-            'explicit-state model checking of the implementation (BFS over '
-            'event histories, replay-built states, leaf-recomputation oracle)'),
+    'C01': _s('Explicit-state BFS over histories of cell events (real Cell, '
+              'Server, Allocation objects); after every cycle sums are '
+              'recomputed from the leaves and both views compared. Bounded: '
+              'depth/alphabet in evidence.', '5/C01'),
+    'C02': _s('BFS over histories; at every distinct quiescent state each '
+              'probe template is submitted and the real cycle is compared '
+              'with an independent leaf-scan feasibility oracle.', '5/C02'),
+    'C03': _s('BFS over histories incl. partition re-assignment, trait/label '
+              'changes, freeze/down, leases under a virtual clock; every new '
+              'placement is checked against the eligibility predicate and '
+              'every placed instance against its partition/traits.', '5/C03'),
+    'C04': _s('BFS over pressure histories on a 2x2 cell with limits on every '
+              'level subset; per node true affinity counts are recomputed and '
+              'compared with limits and with the kept counters.', '5/C04'),
+    'C05': _s('BFS over histories of arrivals, evictions, failures, '
+              'blacklisting and group count changes with up to 2 skipped '
+              'cycles; identity invariants recomputed from Cell.apps.',
+              '5/C05'),
+    'C07': _s('BFS over pressure histories; the queue handed to placement is '
+              'captured per cycle and every displaced healthy instance must '
+              'have a gainer strictly ahead of it.', '5/C07'),
+    'C08': _s('BFS over down/up/frozen transitions and clock advances around '
+              'the retention timeouts against a reference automaton on '
+              'logical seconds.', '5/C08'),
 }
 
 NOT_YET = 'check not built yet in this revision (planned, see DESIGN.md section 5)'
